@@ -10,6 +10,7 @@ oracle_c20 — line protocol (every line is self-contained, there is no state):
   `sql.scan <nano|unix|stamp|t2u> <i32|u32|i64|u64|int|uint|f64|bool|bytes|str|time|null> <v>` → `ok <sec>:<nsec>` (nano, unix) | `ok <stamp>`
   `sql.rt <nano|unix|stamp|t2u> <v>`, `sql.rtt <nano|unix> <sec> <nsec> <how>` → `val=<driver value> scan=…`
   `ntime.rtt|utime.rtt <sec> <nsec> <how>` → `enc=t:<tok> dec=ok <sec>:<nsec>`   (how ∈ unix | zero | date<Y>: how the runner builds the time.Time)
+  `tostr <i64w|u64w|i64|u64|int|uint|dur|tdur> <v>` → `t:<text>` (tex.ToString = MapVal2String = ToStringList element)
   `dur.toml t:<tok>|k:<kind>`, `byte.fromstr t:<tok>`, `b64.scankind <kind>`; `dur.rt` also prints `get=` (Duration()) and `toml=`, `byte.rt` also `str=` (ToString) and `fs=` (FromString)
 Tokens are escaped: bytes outside 0x21…0x7E and `%` are written `%XX`.
 The configuration is the one regenerated from the source (`Nv.Gen.C20.cfg`).
@@ -183,6 +184,17 @@ def answer (line : String) : String :=
         | none => "bad-op"
       else "bad-op"
     | none => "bad-op"
+  | ["tostr", kind, v] =>
+    -- tex.ToString / MapVal2String / ToStringList of an integer kind
+    if kind == "u64w" || kind == "u64" || kind == "uint" then
+      match v.toNat? with
+      | some n => if n < 2 ^ 64 then showTok (toStrNum cfg.toStr (n : Int)) else "bad-op"
+      | none => "bad-op"
+    else if kind == "i64w" || kind == "i64" || kind == "int" || kind == "dur" || kind == "tdur" then
+      match v.toInt? with
+      | some x => if inI64 x then showTok (toStrNum cfg.toStr x) else "bad-op"
+      | none => "bad-op"
+    else "bad-op"
   | ["sql.scan", target, ty, v] =>
     match sqlVal? ty v with
     | some sv => (scanTarget target sv).getD "bad-op"
